@@ -1,615 +1,19 @@
-// Command c14 exercises the serialisation of dawg.Dawg (C14): GobEncode / GobDecode directly
-// and through encoding/gob, on automata built by dawg.New from generated word sets.
-//
-// Case:  b=<hex blank byte>,s=<hex pattern>.<hex pattern>...;tok tok tok
-// The tokens are the words of the set in hex ("-" = the empty word), strictly increasing, so
-// deleting tokens keeps a case valid.  The patterns are searched with blank b.
-//
-// Observation: the projected part describes the automaton decoded from GobEncode(d) by what
-// the property determines (words, ranks, word count, node count, pattern search results) and
-// says whether encoding the decoded automaton gives the same bytes.  The strict part holds the
-// node dump of the decoded automaton (ids, numWords, final, labels, link ids) and the bytes:
-// the property does not fix the format, so the bytes of the model's encoder are compared only
-// as a warning.  Oracles (hx.Fail) compare the decoded automaton (direct, through
-// encoding/gob, into a used receiver) with the original on the same observables.
+// Command c14: the main correspondence stream of C14 (see package lib).
 package main
 
 import (
-	"bytes"
-	"crypto/md5"
-	"encoding/gob"
-	"encoding/hex"
-	"fmt"
-	"sort"
-	"strconv"
-	"strings"
 	"time"
 
-	"github.com/Tom-Johnston/mamba/dawg"
+	"verifharness/cmd/c14/lib"
 	"verifharness/hx"
 )
 
-func hexWord(w []byte) string {
-	if len(w) == 0 {
-		return "-"
-	}
-	return hex.EncodeToString(w)
-}
-
-func unhex(s string) []byte {
-	if s == "-" || s == "" {
-		return []byte{}
-	}
-	b, err := hex.DecodeString(s)
-	if err != nil {
-		panic("bad hex in case: " + s)
-	}
-	return b
-}
-
-// clip replaces a long field by its MD5 (same rule in the model driver).
-func clip(s string) string {
-	if len(s) > 4096 {
-		return fmt.Sprintf("md5:%x:%d", md5.Sum([]byte(s)), len(s))
-	}
-	return s
-}
-
-type tcase struct {
-	blank  byte
-	pats   [][]byte
-	tokens [][]byte
-}
-
-func (c tcase) line() string {
-	ps := make([]string, len(c.pats))
-	for i, p := range c.pats {
-		ps[i] = hexWord(p)
-	}
-	tk := make([]string, len(c.tokens))
-	for i, w := range c.tokens {
-		tk[i] = hexWord(w)
-	}
-	return fmt.Sprintf("b=%02x,s=%s;%s", c.blank, strings.Join(ps, "."), strings.Join(tk, " "))
-}
-
-func parse(line string) tcase {
-	c := tcase{blank: '?'}
-	parts := strings.SplitN(line, ";", 2)
-	for _, kv := range strings.Split(parts[0], ",") {
-		i := strings.IndexByte(kv, '=')
-		if i < 0 {
-			continue
-		}
-		k, v := kv[:i], kv[i+1:]
-		switch k {
-		case "b":
-			x, _ := strconv.ParseUint(v, 16, 8)
-			c.blank = byte(x)
-		case "s":
-			for _, p := range strings.Split(v, ".") {
-				if p != "" {
-					c.pats = append(c.pats, unhex(p))
-				}
-			}
-		}
-	}
-	if len(parts) > 1 {
-		for _, t := range strings.Fields(parts[1]) {
-			c.tokens = append(c.tokens, unhex(t))
-		}
-	}
-	return c
-}
-
-func dumpString(d *dawg.Dawg) string {
-	var sb strings.Builder
-	for _, n := range d.VerifDump() {
-		f := 0
-		if n.Final {
-			f = 1
-		}
-		kids := make([]string, len(n.Kids))
-		for i := range n.Kids {
-			kids[i] = strconv.FormatUint(n.Kids[i], 10)
-		}
-		fmt.Fprintf(&sb, "%d:%d:%d:%s:%s|", n.ID, n.NumWords, f, hexWord(n.Labels), strings.Join(kids, "."))
-	}
-	return sb.String()
-}
-
-// observe prints what the property determines about an automaton.
-func observe(d *dawg.Dawg, blank byte, pats [][]byte) string {
-	words, _ := d.Search()
-	ws := make([]string, len(words))
-	rk := make([]string, len(words))
-	for i, w := range words {
-		ws[i] = hexWord(w)
-		if r, ok := d.Lookup(w); ok {
-			rk[i] = strconv.Itoa(r)
-		} else {
-			rk[i] = "-"
-		}
-	}
-	sr := make([]string, len(pats))
-	for i, p := range pats {
-		sol, ids := d.Search(dawg.NewPatternSearcher(append([]byte{}, p...), blank))
-		hits := make([]string, len(sol))
-		for j := range sol {
-			hits[j] = hexWord(sol[j]) + "@" + strconv.Itoa(ids[j])
-		}
-		sr[i] = hexWord(p) + "=" + strings.Join(hits, ",")
-	}
-	return fmt.Sprintf("words=%s ranks=%s nw=%d nodes=%d search=%s", clip(strings.Join(ws, ",")), clip(strings.Join(rk, ",")),
-		d.NumberOfWords(), d.VerifNodeCount(), clip(strings.Join(sr, ";")))
-}
-
-func exec(line string) hx.Result {
-	c := parse(line)
-	var viol []hx.OracleViolation
-	d, err := dawg.New(c.tokens)
-	if err != nil || d == nil {
-		return hx.Result{Obs: "build-error"}
-	}
-	orig := observe(d, c.blank, c.pats)
-	origDump := dumpString(d)
-	b, err := d.GobEncode()
-	if err != nil {
-		return hx.Result{Obs: "encode-error"}
-	}
-	if b1, err1 := d.GobEncode(); err1 != nil || !bytes.Equal(b1, b) {
-		viol = append(viol, hx.Fail("C14:encode-not-deterministic", "two calls of GobEncode on the same automaton gave different results"))
-	}
-	if dumpString(d) != origDump {
-		viol = append(viol, hx.Fail("C14:encode-modifies", "GobEncode changed the automaton"))
-	}
-	strict := " ## bytes=" + clip(hex.EncodeToString(b))
-	d2 := new(dawg.Dawg)
-	if err := d2.GobDecode(append([]byte{}, b...)); err != nil {
-		return hx.Result{Obs: "decode-error" + strict, Viol: append(viol, hx.Fail("C14:decode-error", "GobDecode rejects the output of GobEncode: %v", err))}
-	}
-	dec := observe(d2, c.blank, c.pats)
-	if dec != orig {
-		viol = append(viol, hx.Fail("C14:roundtrip-differs", "decoded automaton differs from the original: original %s decoded %s", short(orig, 300), short(dec, 300)))
-	}
-	reenc := "same"
-	b2, err := d2.GobEncode()
-	if err != nil {
-		reenc = "error"
-	} else if !bytes.Equal(b2, b) {
-		reenc = "DIFFERENT"
-	}
-	if reenc != "same" {
-		viol = append(viol, hx.Fail("C14:reencode-differs", "encoding the decoded automaton: %s", reenc))
-	}
-	// through encoding/gob
-	var buf bytes.Buffer
-	if err := gob.NewEncoder(&buf).Encode(d); err != nil {
-		viol = append(viol, hx.Fail("C14:gob-encode-error", "gob Encode: %v", err))
-	} else {
-		framed := append([]byte{}, buf.Bytes()...)
-		if !bytes.Contains(framed, b) {
-			viol = append(viol, hx.Fail("C14:gob-frame", "the gob stream does not contain the bytes of GobEncode"))
-		}
-		var d3 dawg.Dawg
-		if err := gob.NewDecoder(bytes.NewReader(framed)).Decode(&d3); err != nil {
-			viol = append(viol, hx.Fail("C14:gob-decode-error", "gob Decode: %v", err))
-		} else {
-			if o3 := observe(&d3, c.blank, c.pats); o3 != orig {
-				viol = append(viol, hx.Fail("C14:gob-roundtrip-differs", "automaton decoded through encoding/gob differs from the original: original %s decoded %s", short(orig, 300), short(o3, 300)))
-			}
-			var buf3 bytes.Buffer
-			if err := gob.NewEncoder(&buf3).Encode(&d3); err != nil || !bytes.Equal(buf3.Bytes(), framed) {
-				viol = append(viol, hx.Fail("C14:gob-reencode-differs", "encoding the automaton decoded through encoding/gob gives different bytes"))
-			}
-		}
-	}
-	// into a receiver that already holds another automaton
-	d4, err4 := dawg.New([][]byte{{}, []byte("a"), []byte("ab"), []byte("b"), {0xff, 0x00}})
-	if err4 == nil {
-		if err := d4.GobDecode(append([]byte{}, b...)); err != nil {
-			viol = append(viol, hx.Fail("C14:decode-error-used-receiver", "GobDecode into a used receiver: %v", err))
-		} else if o4 := observe(d4, c.blank, c.pats); o4 != orig {
-			viol = append(viol, hx.Fail("C14:used-receiver-differs", "decoding into a used receiver: original %s decoded %s", short(orig, 300), short(o4, 300)))
-		} else if b4, err := d4.GobEncode(); err != nil || !bytes.Equal(b4, b) {
-			viol = append(viol, hx.Fail("C14:used-receiver-reencode-differs", "encoding the automaton decoded into a used receiver gives different bytes"))
-		}
-	}
-	obs := dec + " reenc=" + reenc + " ## dump=" + clip(dumpString(d2)) + " bytes=" + clip(hex.EncodeToString(b))
-
-	// statistics
-	pre := map[string]bool{"": true}
-	properPrefix := false
-	for i, w := range c.tokens {
-		for k := 1; k <= len(w); k++ {
-			pre[string(w[:k])] = true
-		}
-		if i > 0 && bytes.HasPrefix(w, c.tokens[i-1]) {
-			properPrefix = true
-		}
-	}
-	dump := d.VerifDump()
-	maxBranch, maxID := 0, uint64(0)
-	for _, n := range dump {
-		if len(n.Labels) > maxBranch {
-			maxBranch = len(n.Labels)
-		}
-		if n.ID > maxID {
-			maxID = n.ID
-		}
-	}
-	return hx.Result{Obs: obs, Nontrivial: len(dump) < len(pre) || properPrefix, Viol: viol,
-		Buckets: []string{"words:" + cross(len(c.tokens)), "nodes:" + cross(len(dump)), "branch:" + cross(maxBranch), "maxid:" + cross(int(maxID))}}
-}
-
-// cross names the side of the varint boundaries a count lies on.
-func cross(n int) string {
-	switch {
-	case n == 0:
-		return "0"
-	case n <= 1:
-		return "1"
-	case n < 127:
-		return "2..126"
-	case n == 127:
-		return "127"
-	case n == 128:
-		return "128"
-	case n < 255:
-		return "129..254"
-	case n <= 256:
-		return "255..256"
-	case n < 65535:
-		return "257..65534"
-	default:
-		return ">=65535"
-	}
-}
-
-// ---------------------------------------------------------------- generation
-
-func sortDedup(ws [][]byte) [][]byte {
-	sort.Slice(ws, func(i, j int) bool { return bytes.Compare(ws[i], ws[j]) < 0 })
-	out := ws[:0]
-	for i, w := range ws {
-		if i == 0 || !bytes.Equal(w, ws[i-1]) {
-			out = append(out, w)
-		}
-	}
-	return out
-}
-
-func cat(parts ...[]byte) []byte {
-	var w []byte
-	for _, p := range parts {
-		w = append(w, p...)
-	}
-	if w == nil {
-		w = []byte{}
-	}
-	return w
-}
-
-func randWord(r *hx.Rng, alpha []byte, maxLen int) []byte {
-	n := r.Intn(maxLen + 1)
-	w := make([]byte, n)
-	for i := range w {
-		w[i] = alpha[r.Intn(len(alpha))]
-	}
-	return w
-}
-
-func allWords(alpha []byte, n int) [][]byte {
-	level := [][]byte{{}}
-	out := [][]byte{{}}
-	for k := 1; k <= n; k++ {
-		var next [][]byte
-		for _, w := range level {
-			for _, c := range alpha {
-				next = append(next, cat(w, []byte{c}))
-			}
-		}
-		out = append(out, next...)
-		level = next
-	}
-	return out
-}
-
-func randAlphabet(r *hx.Rng) []byte {
-	switch r.Intn(6) {
-	case 0:
-		return []byte("a")
-	case 1:
-		return []byte("ab")
-	case 2:
-		return []byte("abc")
-	case 3:
-		return []byte("abcd")
-	case 4: // bytes at the edges of the range
-		return []byte{0x00, 0x01, 0x7f, 0x80, 0xfe, 0xff}[:r.Range(2, 6)]
-	default: // a random subset of all bytes
-		return byteSubset(r, r.Range(2, 40))
-	}
-}
-
-// byteSubset returns k distinct bytes in increasing order.
-func byteSubset(r *hx.Rng, k int) []byte {
-	p := r.Perm(256)[:k]
-	sort.Ints(p)
-	a := make([]byte, k)
-	for i, v := range p {
-		a[i] = byte(v)
-	}
-	return a
-}
-
-// wordSet builds a small set with the shapes of C12's generator.
-func wordSet(r *hx.Rng, alpha []byte) [][]byte {
-	var ws [][]byte
-	switch r.Intn(6) {
-	case 0: // independent random words
-		n := r.Range(0, 12)
-		for i := 0; i < n; i++ {
-			ws = append(ws, randWord(r, alpha, 5))
-		}
-	case 1: // prefixes x suffixes: heavy sharing at both ends
-		np, ns := r.Range(1, 4), r.Range(1, 4)
-		var pre, suf [][]byte
-		for i := 0; i < np; i++ {
-			pre = append(pre, randWord(r, alpha, 3))
-		}
-		for i := 0; i < ns; i++ {
-			suf = append(suf, randWord(r, alpha, 3))
-		}
-		for _, p := range pre {
-			for _, s := range suf {
-				if r.Chance(5, 6) {
-					ws = append(ws, cat(p, s))
-				}
-			}
-		}
-	case 2: // a few words and many of their prefixes
-		n := r.Range(1, 4)
-		for i := 0; i < n; i++ {
-			w := randWord(r, alpha, 7)
-			for k := 0; k <= len(w); k++ {
-				if r.Chance(1, 2) {
-					ws = append(ws, cat(w[:k]))
-				}
-			}
-			ws = append(ws, w)
-		}
-	case 3: // dense: most short words
-		maxLen := 3
-		if len(alpha) > 4 {
-			maxLen = 2
-		}
-		if len(alpha) > 16 {
-			maxLen = 1
-		}
-		for _, w := range allWords(alpha, maxLen) {
-			if r.Chance(3, 5) {
-				ws = append(ws, w)
-			}
-		}
-	case 4: // common stem, then branches with common endings
-		stem := randWord(r, alpha, 4)
-		ends := [][]byte{randWord(r, alpha, 2), randWord(r, alpha, 2)}
-		n := r.Range(1, 8)
-		for i := 0; i < n; i++ {
-			ws = append(ws, cat(stem, randWord(r, alpha, 3), ends[r.Intn(2)]))
-		}
-	default: // tiny
-		n := r.Range(0, 3)
-		for i := 0; i < n; i++ {
-			ws = append(ws, randWord(r, alpha, 2))
-		}
-	}
-	if r.Chance(1, 5) {
-		ws = append(ws, []byte{})
-	}
-	return sortDedup(ws)
-}
-
-var boundaries = []int{0, 1, 2, 126, 127, 128, 129, 200, 254, 255, 256}
-
-// wide builds a set whose automaton has a node with exactly k outgoing links (k <= 256) below
-// a stem; the links lead to leaves, to a shared inner node, or to a mixture.
-func wide(r *hx.Rng, k int, budget int) [][]byte {
-	stem := randWord(r, []byte{'x', 0x00, 0xff}, 2)
-	letters := byteSubset(r, k)
-	tails := [][]byte{{}}
-	switch r.Intn(4) {
-	case 0: // leaves only
-	case 1: // every link continues with the same one or two suffixes
-		tails = [][]byte{randWord(r, []byte("ab"), 2), randWord(r, []byte{0x80, 0xff}, 3)}
-	case 2: // a second wide level shared by all links (k x j words, 3 levels)
-		// GobEncode revisits shared nodes: about k^2 j^2 / 4 loop iterations here, which the
-		// model driver has to follow
-		j := []int{2, 3, 127, 128, 200, 256}[r.Intn(6)]
-		for j > 3 && k*k*j*j/4 > budget {
-			j = []int{2, 3, 16}[r.Intn(3)]
-		}
-		tails = nil
-		for _, c := range byteSubset(r, j) {
-			tails = append(tails, []byte{c})
-		}
-	default: // mixture
-		tails = [][]byte{{}, {0x00}, {0x7f, 0x80}, []byte("zz")}
-	}
-	ws := [][]byte{}
-	if r.Chance(1, 3) {
-		ws = append(ws, cat(stem))
-	}
-	for _, c := range letters {
-		if len(tails) > 4 || r.Intn(4) != 3 {
-			for _, t := range tails {
-				ws = append(ws, cat(stem, []byte{c}, t))
-			}
-		} else {
-			ws = append(ws, cat(stem, []byte{c}, tails[r.Intn(len(tails))]))
-		}
-	}
-	return sortDedup(ws)
-}
-
-// chain: one word of length n (n+1 nodes, ids 0..n), optionally with some of its prefixes.
-func chain(r *hx.Rng, n int, prefixes bool) [][]byte {
-	w := make([]byte, n)
-	for i := range w {
-		w[i] = []byte{'a', 'b', 0x00, 0xff}[r.Intn(4)]
-	}
-	ws := [][]byte{w}
-	if prefixes {
-		for k := 0; k < n; k++ {
-			if r.Chance(1, 3) {
-				ws = append(ws, cat(w[:k]))
-			}
-		}
-	}
-	return sortDedup(ws)
-}
-
-// manyWords: exactly n words with heavy sharing (few nodes): numbers written with d digits in
-// base len(alpha), the first n of them.
-func manyWords(alpha []byte, d, n int) [][]byte {
-	var ws [][]byte
-	idx := make([]int, d)
-	for len(ws) < n {
-		w := make([]byte, d)
-		for i := range w {
-			w[i] = alpha[idx[i]]
-		}
-		ws = append(ws, w)
-		i := d - 1
-		for i >= 0 {
-			idx[i]++
-			if idx[i] < len(alpha) {
-				break
-			}
-			idx[i] = 0
-			i--
-		}
-		if i < 0 {
-			break
-		}
-	}
-	return sortDedup(ws)
-}
-
-func patterns(r *hx.Rng, ws [][]byte, blank byte) [][]byte {
-	var ps [][]byte
-	if len(ws) == 0 {
-		return [][]byte{{}, {blank}}
-	}
-	for i := 0; i < 3; i++ {
-		w := cat(ws[r.Intn(len(ws))])
-		if len(w) > 24 {
-			continue
-		}
-		for j := range w {
-			if r.Chance(1, 2) {
-				w[j] = blank
-			}
-		}
-		ps = append(ps, w)
-	}
-	ps = append(ps, []byte{blank}, []byte{blank, blank})
-	return ps
-}
-
-func gen(g *hx.Gen) {
-	r := g.Rng
-	emit := func(ws [][]byte) {
-		blank := byte('?')
-		if r.Chance(1, 4) {
-			blank = byte(r.Intn(256))
-		}
-		g.Emit(tcase{blank: blank, pats: patterns(r, ws, blank), tokens: ws}.line())
-	}
-	// corpus: the empty set, the empty word, the word list of TestGob, the input that failed on
-	// the pinned tree (a node with 128 children; see KNOWN_FINDINGS.txt, fixed) and 256 children
-	emit(nil)
-	emit([][]byte{{}})
-	var tw [][]byte
-	for _, s := range []string{"abject", "abjection", "abjections", "abjectly", "abjectness", "ablate", "ablated", "ablation", "ablations"} {
-		tw = append(tw, []byte(s))
-	}
-	emit(tw)
-	for _, k := range []int{127, 128, 256} {
-		var ws [][]byte
-		for i := 0; i < k; i++ {
-			ws = append(ws, []byte{byte(i)})
-		}
-		emit(ws)
-	}
-	// exhaustive small spaces
-	ab := []byte("ab")
-	short := sortDedup(allWords(ab, g.Pick(2, 3)))
-	for mask := 0; mask < 1<<uint(len(short)); mask++ {
-		var ws [][]byte
-		for i, w := range short {
-			if mask>>uint(i)&1 == 1 {
-				ws = append(ws, w)
-			}
-		}
-		emit(ws)
-	}
-	g.Exhaustive(fmt.Sprintf("every subset of the %d words of length <= %d over {a,b}", len(short), g.Pick(2, 3)))
-	// structured random sets as in C12
-	for i, n := 0, g.Pick(2500, 60000); i < n; i++ {
-		emit(wordSet(r, randAlphabet(r)))
-	}
-	// full byte alphabet: a node with k links for the boundary values of k
-	budget := g.Pick(400000, 8000000)
-	for i, n := 0, g.Pick(4, 40); i < n; i++ {
-		for _, k := range boundaries {
-			emit(wide(r, k, budget))
-		}
-	}
-	for i, n := 0, g.Pick(20, 400); i < n; i++ {
-		emit(wide(r, r.Range(0, 256), budget))
-	}
-	// node counts and ids across 127 and 255: chains; word counts across 127 and 255
-	for _, n := range []int{125, 126, 127, 128, 253, 254, 255, 256, 300} {
-		emit(chain(r, n, false))
-		emit(chain(r, n, true))
-	}
-	for _, n := range []int{126, 127, 128, 129, 254, 255, 256, 257} {
-		emit(manyWords([]byte("abcd"), 5, n))
-		emit(manyWords(byteSubset(r, 16), 2, n))
-		var ws [][]byte
-		for j := 0; j < 2*n; j++ {
-			ws = append(ws, randWord(r, []byte("abc"), 9))
-		}
-		ws = sortDedup(ws)
-		if len(ws) > n {
-			ws = ws[:n]
-		}
-		emit(ws)
-	}
-	for i, n := 0, g.Pick(10, 300); i < n; i++ {
-		var ws [][]byte
-		for j, m := 0, r.Range(100, 600); j < m; j++ {
-			ws = append(ws, randWord(r, []byte("abc"), 8))
-		}
-		emit(sortDedup(ws))
-	}
-}
-
 func main() {
 	hx.Main(hx.Prop{
-		Rule:        "case = a strictly increasing word set (the automaton is dawg.New of it) plus search patterns; non-trivial = the automaton shares a node (node count < number of distinct prefixes) or some word is a proper prefix of another; distinct by case text",
-		Gen:         gen,
-		Exec:        exec,
-		CaseTimeout: 60 * time.Second,
+		Rule:        lib.Rule,
+		Gen:         lib.Gen,
+		Exec:        lib.Exec,
+		CaseTimeout: 30 * time.Second,
 		MemMB:       3072,
 	})
-}
-
-func short(s string, n int) string {
-	if len(s) > n {
-		return s[:n] + "..."
-	}
-	return s
 }
